@@ -232,8 +232,12 @@ class Pool:
         # targets
         A = graphs.random_connected_graph(rng, int(rng.integers(2, 5)), 0.5)
         self.target_adj = A
+        # half of the pools: the nodes of the target graph are created in another order than the sorted one (graphiq reads
+        # qubit k as the k-th node created; the fingerprint does the same)
+        order = [int(v) for v in rng.permutation(A.shape[0])] if rng.random() < 0.5 else None
+        self.unsorted_target = order is not None and order != sorted(order)
         for rep in ("g", "s", "dm"):
-            q = m["QuantumState"](gq.nx_from_adj(A), rep_type="g")
+            q = m["QuantumState"](gq.nx_from_adj(A, order), rep_type="g")
             if rep != "g":
                 q.convert_representation(rep)
             self.objs["target_" + rep] = q
@@ -379,6 +383,8 @@ def run_history(hseed, ctx, m):
     rng = np.random.default_rng(hseed)
     np.random.seed(int(rng.integers(2 ** 31)))
     pool = Pool(rng, m)
+    if pool.unsorted_target:
+        ctx.count("pool:target_nodes_created_unsorted")
     L = int(rng.integers(5, 26))
     calls = []
     ctx.count("history:runs")
